@@ -18,6 +18,37 @@ def dialects():
     return sorted(d.label for d in dialect_readout())
 
 
+def column_part(chk, quick, rnd):
+    """column level across dialects, with metadata: Col.tla programs (every statement kind, the provider knowing some sources and
+    possibly the target) under ansi and a random third of the dialects; Trace_Col decides each against the dialect-free ideal"""
+    from . import c02
+    g = chk.tlc("Col", c02.cfg(chk, "colgen", Emit=True, MaxRels=2, MaxItems=2, MaxRefs=2, TAliases={"x"}, SAliases={"u"}, WithMeta=True, WithUnion=True,
+                               invariants=["EmitCase"]),
+                "generate: simulated column-level programs with metadata", workers=1, coverage=False,
+                simulate="num=%d" % (3000 if quick else 40000), depth=12, seed=chk.seed + 7, timeout=6000)
+    seen, cases = set(), []
+    for c in g.cases("CASE"):
+        k = str(c["prog"])
+        if k not in seen:
+            seen.add(k)
+            cases.append(c)
+    rnd.shuffle(cases)
+    # programs where the provider knows the target come first: that is where statement kinds are told apart
+    cases.sort(key=lambda c: not c["prog"]["tk"])
+    cases = cases[:260 if quick else 5000]
+    allds = [d for d in dialects() if d != "ansi"]
+    jobs = []
+    for c in cases:
+        for d in ["ansi"] + (rnd.sample(allds, len(allds) // 3) if quick else allds):
+            jobs.append({"prog": c["prog"], "flow": c["flow"], "metadata": True, "dialect": d, "opts": {}})
+    obs = c02.run_jobs(jobs)
+    verdicts, keep = c02.decide(chk, jobs, obs, "coldial")
+    for (j, o), v in zip(keep, verdicts):
+        chk.count(["col", j["prog"], j["dialect"]], nontrivial=j["dialect"] != "ansi")
+    chk.cov["column_level_verdicts"] = {k: verdicts.count(k) for k in sorted(set(verdicts))}
+    chk.cov["column_level_rejected_by_the_parser_itself"] = len(jobs) - len(keep)
+
+
 def run(chk):
     quick = chk.tier == "quick"
     rnd = random.Random(chk.seed)
@@ -33,31 +64,47 @@ def run(chk):
     more = g2.cases("CASE")
     rnd.shuffle(more)
     cases += more[:150 if quick else 3000]
+    # FROM shapes the dialect grammars parse differently: parenthesised joins; subqueries on both sides of a comparison, in ON
+    # conditions, nested set operations
+    g3 = chk.tlc("Stmt", c01.cfg(chk, "gen3", 6 if quick else 7, kinds=("insert",), known=c01.ALL_DEV, emit=True, clauses=c01.PAREN_CLAUSES, tbl=("a", "b"), ctes=("x",),
+                                 schemas=("none",)), "generate: parenthesised joins", workers=1, coverage=False, timeout=6000)
+    shapes = [c for c in g3.cases("CASE") if any(e["e"] == "paren" for e in c["prog"])]
+    g4 = chk.tlc("Stmt", c01.cfg(chk, "gen4", 8, kinds=("insert",), known=c01.ALL_DEV, emit=True, clauses=c01.NEST_CLAUSES, tbl=("a", "b"), ctes=("x",),
+                                 schemas=("none",), maxcte=0), "generate: ON subqueries, nested set operations, two WHERE subqueries", workers=1, coverage=False, timeout=6000)
+    shapes += [c for c in g4.cases("CASE") if any(e["e"] in ("on", "ubranch") for e in c["prog"]) or sum(1 for e in c["prog"] if e["e"] == "where") >= 2]
+    g5 = chk.tlc("Stmt", c01.cfg(chk, "gen5", 10, kinds=("insert",), known=c01.ALL_DEV, emit=True, clauses={"where", "where2"}, tbl=("a", "b"), ctes=("x",),
+                                 schemas=("none",), maxcte=0, maxrel=1, maxdepth=1), "generate: subqueries on both sides of a comparison", workers=1,
+                 coverage=False, timeout=6000)
+    both = [c for c in g5.cases("CASE") if sum(1 for e in c["prog"] if e["e"] == "where") >= 2]
+    rnd.shuffle(both)
+    shapes += both[:60 if quick else 2000]
+    rnd.shuffle(shapes)
     allds = [d for d in dialects() if d != "ansi"]
     if quick:
-        k = chk.seed % 3
-        ds = [d for i, d in enumerate(allds) if i % 3 == k]
         rnd.shuffle(cases)
-        cases = cases[:450]
+        cases = cases[:450] + shapes[:300]
     else:
-        ds = allds
-    jobs = []
+        cases += shapes[:4000]
+    jobs, owner = [], []
     for c in cases:
+        # quick: every program under ansi, the sqlparse analyzer and a random third of the other dialects - all dialects every run
+        ds = allds if not quick else rnd.sample(allds, len(allds) // 3)
         for d in ["ansi"] + ds + ["non-validating"]:
             jobs.append({"prog": c["prog"], "dialect": d, "check_accept": d != "non-validating"})
+            owner.append(c)
     obs = stmt_variants.run(jobs)
     sel_c, sel_o = [], []
     skipped = 0
-    ci = 0
-    per = len(ds) + 2
+    ds = allds
     for i, o in enumerate(obs):
-        c = cases[i // per]
+        c = owner[i]
         if "skip" in o:
             skipped += 1
             continue
         sel_c.append(c)
         sel_o.append(o)
     chk.cov["variants_rejected_by_the_parser_itself"] = skipped
+    column_part(chk, quick, rnd)
     verdicts = c01.decide(chk, sel_c, sel_o, "dial")
     byd = {}
     for o, v in zip(sel_o, verdicts):
@@ -71,6 +118,6 @@ def run(chk):
     chk.cov["rule"] = ("cases = (program, dialect): %d programs printed by TLC from Stmt.tla (every statement kind over small bodies + sampled "
                        "insert/query bodies) x %d sqlfluff dialects (%s) + the sqlparse analyzer; a cell counts when the parser called "
                        "directly accepts the rendering; every observation decided by Trace_Stmt against the dialect-free ideal. "
-                       "non-trivial = dialect other than ansi." % (len(cases), len(ds) + 1, "all installed" if not quick else "ansi + a rotating third by seed"))
+                       "non-trivial = dialect other than ansi." % (len(cases), len(ds) + 1, "all installed" if not quick else "ansi + a random third per program"))
     chk.assumptions += ["'the dialect accepts the statement' is decided by calling the sqlfluff parser directly",
-                        "column-level agreement across dialects is checked by C02's dialect sweep"]
+                        "column level: Col.tla programs with metadata under ansi + a random third of the dialects per program (all in thorough), decided by Trace_Col"]
